@@ -313,7 +313,14 @@ func (w *Witness) Update(pk *gabikeys.PublicKey, update *Update) error {
 	defer Logger.Tracef("revocation.Witness.Update() done")
 
 	newAcc, err := update.Verify(pk)
-	ourAcc := w.SignedAccumulator.Accumulator
+	if err != nil {
+		return err
+	}
+	// A witness that was just read from storage carries its signed accumulator undecoded.
+	if w.SignedAccumulator == nil {
+		return errors.New("witness without signed accumulator")
+	}
+	ourAcc, err := w.SignedAccumulator.UnmarshalVerify(pk)
 	if err != nil {
 		return err
 	}
